@@ -6,7 +6,7 @@ from core import Result
 import proto, gen, kernels, implutil
 
 THEOREMS = ['C04_equals_spec_peak', 'C04_equals_spec_trough', 'C04_identities_peak', 'C04_identities_trough', 'C04_band_amp_window', 'C04_generated', 'C04_generated_row']
-RULE = ("generated signals of all families x option sets of C01 (plus compute_shape_features' own n_cycles) x both centre extrema x with/without sample columns; every shape column of the implementation's table is "
+RULE = ("generated signals of all families x option sets of C01 (plus compute_shape_features' own n_cycles) x both centre extrema x with/without sample columns x signal dtype (float64; 15% int16 / int32 / int64 / uint16 / uint8 spanning most of the type's range); every shape column of the implementation's table is "
         "compared with the Lean specification (documented definition read against the ORIGINAL signal with the centring's own column names): integer columns exactly, "
         "real columns within 1e-9 relative; band_amp once with the real amp_by_time and once with an integer-valued amplitude stub (harness process only) so that the "
         "half-open window [last side, next side) is observable exactly; distinct = distinct (signal, options); non-trivial = a table with >= 2 rows whose cycles differ")
@@ -25,10 +25,22 @@ def _stub_amp(n):
     i = np.arange(n)
     return ((i * 7 + 3) % 11).astype(float)
 
+INT_RANGE = {'int16': (0, 30000), 'int32': (0, 2000000000), 'int64': (0, 1000), 'uint16': (32768, 30000), 'uint8': (128, 120)}
+
+def _signal(c):
+    """(array handed to the implementation, its exact values as float64): integer-typed recordings use most of their type's range."""
+    x = proto.hex2arr(c['sig'])
+    if not c.get('dtype'):
+        return x, x
+    off, amp = INT_RANGE[c['dtype']]
+    m = float(np.max(np.abs(x))) or 1.0
+    xi = (np.round(x * (amp / m)) + off).astype(c['dtype'])
+    return xi, xi.astype(float)
+
 def _impl(c):
     import bycycle.features.shape as sh
     from bycycle.features import compute_shape_features, compute_features
-    sig = proto.hex2arr(c['sig'])
+    sig = _signal(c)[0]
     fek = implutil.fe_kwargs(c['fk'], c['boundary'], None)
     orig = sh.amp_by_time
     if c['stub']:
@@ -58,7 +70,9 @@ def corpus(ctx):
     s = gen.make_signal(np.random.default_rng(11), family='asym', fs=500, f0=10)
     base = dict(sig=proto.arr2hex(s['sig']), fs=500, f_range=[7.0, 13.0], fk=None, boundary=None, family='asym')
     return [dict(base, center='peak', stub=False, via='shape'), dict(base, center='trough', stub=True, via='shape'),
-            dict(base, center='trough', stub=False, via='features')]
+            dict(base, center='trough', stub=False, via='features'),
+            # pre-fix F (052c5d2): int16 arithmetic wrapped volt_rise / volt_decay / volt_amp and the flank midpoints
+            dict(base, center='peak', stub=True, via='features', dtype='int16'), dict(base, center='trough', stub=True, via='shape', dtype='uint16')]
 
 def generate(ctx):
     rng = ctx.rng
@@ -73,6 +87,8 @@ def generate(ctx):
                           via=str(rng.choice(['shape', 'features'])), family=s['family']))
         if cases[-1]['via'] == 'shape' and rng.random() < 0.5:      # the function's own n_cycles (band amplitude filter length)
             cases[-1]['n_cycles'] = int(rng.choice([2, 4, 5, 7]))
+        if rng.random() < 0.15:      # integer-typed recording (ADC counts) spanning most of its type's range
+            cases[-1]['dtype'] = str(rng.choice(list(INT_RANGE)))
     return cases
 
 def _close(fl, atom, tol=Fraction(1, 10**9)):
@@ -86,7 +102,7 @@ def _close(fl, atom, tol=Fraction(1, 10**9)):
 def evaluate(ctx, cases):
     reqs, pre = [], []
     for c in cases:
-        x = proto.hex2arr(c['sig'])
+        x = _signal(c)[1]
         try:
             df = _impl(c)
         except Exception as e:
@@ -133,7 +149,7 @@ def evaluate(ctx, cases):
         if dm: info['model_diff'] = dm
         if ds: info['spec_diff'] = ds
         ctx.hist('outcome', 'table')
-        ctx.hist('options', '%s/%s/%s' % (c['center'], 'stub' if c['stub'] else 'amp', c['via']))
+        ctx.hist('options', '%s/%s/%s' % (c['center'], 'stub' if c['stub'] else 'amp', c['via'])); ctx.hist('dtype', c.get('dtype', 'float64'))
         nt = p['n'] >= 2 and len(set(df['period'].values)) > 1
         out.append(Result(c, judge_ok=ds is None, corr_ok=dm is None, sig=key, nontrivial=nt, info=info))
     return out
